@@ -353,12 +353,13 @@ func parseAux(aux []byte) ([]sam.Aux, error) {
 				if j == -1 {
 					return nil, errors.New("bam: invalid zero terminated data: no zero")
 				}
+				if j < 3 {
+					// The zero found is in the tag or type bytes.
+					return nil, errors.New("bam: invalid zero terminated data: short field")
+				}
 				if t == 'H' {
 					// BAM holds an H value as its hexadecimal digits; a sam.Aux
 					// holds the bytes those digits stand for. Decode in place.
-					if j < 3 {
-						return nil, errors.New("bam: invalid zero terminated data: short field")
-					}
 					n, err := hex.Decode(aux[i+3:], aux[i+3:i+j])
 					if err != nil {
 						return nil, fmt.Errorf("bam: invalid hex data: %v", err)
